@@ -551,6 +551,16 @@ func (g *Gen) enterLoop(li *loopInfo, h Heap, preds []*ssa.BasicBlock, conds []s
 			g.oblige("inv-init", fmt.Sprintf("loop%d[%d] %s", li.ordinal, k, c.Text), c.Text, guard, t, b.Instrs[0].Pos())
 		}
 	}
+	if li.spec != nil && g.mode.Contracts {
+		for k, c := range li.spec.EntryAsserts {
+			t, err := envEntry.evalBool(c.Expr)
+			if err != nil {
+				g.unsupported("%s:%d: entry_assert %q: %v", shortFile(c.File), c.Line, c.Text, err)
+				continue
+			}
+			g.oblige("entry-assert", fmt.Sprintf("loop%d[%d] %s", li.ordinal, k, c.Text), c.Text, guard, t, b.Instrs[0].Pos())
+		}
+	}
 	if li.spec != nil {
 		for _, c := range li.spec.Invariants {
 			g.assumeClause(envHead, c, guard)
